@@ -203,6 +203,14 @@ func vTableHarness(li int) {
 			vCheckTableScan("table/scan-range", it, keys, vals, lo, hi, true, true)
 		}
 	}
+	// whatever query ran, the reader still knows every written key afterwards (a query must not disturb the
+	// reader's state: caches, reused entries)
+	for i := range keys {
+		c, cerr := r.Contains(keys[i])
+		got, gerr := r.Get(keys[i])
+		vrt.Assert(cerr == nil && c, "table/written-key-still-contained-after-the-query")
+		vrt.Assert(gerr == nil && vrt.SameBytes(got, vals[i]), "table/written-key-still-readable-after-the-query")
+	}
 	vrt.Assert(r.Close() == nil, "table/close-no-error")
 	vrt.Reach("table/end")
 }
